@@ -143,7 +143,7 @@ def prove(built, fn, verbose=False, trace=False, keep=False, case=None):
     for d in getattr(sp, 'defines', []):
         defs.append('-D' + d)
     gb = os.path.join(wd, 'a.gb'); gb2 = os.path.join(wd, 'b.gb')
-    cmd = ['goto-cc'] + defs + ['-I', os.path.join(ROOT, 'env'), '-I', os.path.join(ROOT, 'contracts'),
+    cmd = ['goto-cc', '-Werror'] + defs + ['-I', os.path.join(ROOT, 'env'), '-I', os.path.join(ROOT, 'contracts'),
                                  '--function', 'harness_' + fn, built.path, os.path.join(ROOT, 'env', 'env.c'), '-o', gb]
     rc, so, se, dt = run(cmd, 120)
     if rc != 0:
